@@ -59,9 +59,7 @@ Print Assumptions C15_copy_fresh.
 Theorem C15_copy_independent : forall h m v m' h', view h m = Ok v -> mol_copy h m = Ok (m', h') ->
   (forall ws, (forall w, In w ws -> List.length h <= fst w) -> view (stores ws h') m = Ok v) /\
   (forall ws, (forall w, In w ws -> fst w < List.length h) -> view (stores ws h') m' = Ok v).
-Proof.
-  exact (fun h m v m' h' H C => conj (copy_independent_orig h m v m' h' H C) (copy_independent_copy h m v m' h' H C)).
-Qed.
+Proof. exact copy_independent_both. Qed.
 Print Assumptions C15_copy_independent.
 
 (* non-vacuity: a 3-atom chain is a well-formed non-empty adjacency, and it is connected *)
